@@ -1,3 +1,12 @@
+//! Shared plumbing of the correspondence / search harness. One binary per property (src/bin/cXX.rs):
+//!
+//!   cXX --seed S --n N --out DIR [--tier quick|thorough] [--corpus DIR] [--replay FILE]
+//!
+//! generates operations from a single PRNG state, executes them on the real code (in-process) and writes
+//!   DIR/ops.jsonl    one operation per line (input of the Lean model driver)
+//!   DIR/impl.jsonl   the implementation's canonicalised observation per operation
+//!   DIR/oracle.jsonl property-monitor failures found on the implementation alone (S)
+//!   DIR/stats.json   generator statistics (operation mix, outcome classes, sizes)
 use std::{cell::RefCell, collections::BTreeMap, fs::File, io::{BufWriter, Write}, path::PathBuf};
 
 use rand::{rngs::StdRng, SeedableRng};
@@ -164,4 +173,18 @@ pub fn drive(p: &mut dyn Prop, opts: &Opts) -> anyhow::Result<()> {
     }
     let extra = p.extra_stats();
     out.finish(extra)
+}
+
+/// Entry point used by every property binary.
+pub fn main_for(p: &mut dyn Prop) {
+    let args: Vec<String> = std::env::args().collect();
+    let opts = Opts::parse(&args[1..]);
+    // Panics inside the code under test are observations, not harness failures; keep stderr quiet.
+    std::panic::set_hook(Box::new(|info| {
+        LAST_PANIC.with(|p| *p.borrow_mut() = Some(panic_site(info)));
+    }));
+    if let Err(e) = drive(p, &opts) {
+        eprintln!("harness error: {e:#}");
+        std::process::exit(3);
+    }
 }
